@@ -55,6 +55,8 @@ pub mod c14;
 pub mod conv;
 #[cfg(any(feature = "p14"))]
 pub mod nested;
+#[cfg(any(feature = "p02", feature = "p05"))]
+pub mod taikopre;
 #[cfg(any(feature = "p15"))]
 pub mod c15;
 #[cfg(any(feature = "p09" , feature = "p10" , feature = "p16"))]
